@@ -98,6 +98,10 @@ class C12(flow.Spec):
                'parseDeferredBlocks(0), resolveMethodCalls(0), connectNonNamedObjArgs(0) never panic from any state with the hypotheses of the walk theorem at the root, a '
                'parentless root and "every pOpIntNamePathOrMethodCall object carries a []byte"; R, valid indexes and slices-inside hold when the tail returns.  '
                'The hypotheses are NOT derived from passes 1-3; fuel is NOT analysed',
+               'C12_parse_total_partial_typed_head / _typed_deferred: the typing hypothesis of resolveMethodCalls ("every pOpIntNamePathOrMethodCall object '
+               'carries a []byte") is DERIVED: the first four passes run as in parseAML_body (parse_head) and parseDeferredBlocks preserve it from any '
+               'state whenever they return (partial-correctness judgement tyk with a tracked fresh object, Aml/ParserTotalTyped.v), so it holds at '
+               'resolveMethodCalls whenever it holds of the pool ParseAML starts with',
                'the unproved parts of C12_full_parse_total (no Panic / OutOfFuel and R for the later passes, outcome class of load) are covered '
                'by the correspondence of the extracted model (explicit Panic / OutOfFuel outcomes, all passes modelled) with the real parser '
                'and by the harness monitors (outcome class, watchdog, independent link checker, PrettyPrint)',
